@@ -9,6 +9,7 @@ Import ListNotations.
 Open Scope Qc_scope.
 
 Definition qq (n : Z) (d : positive) : Qc := Q2Qc (n # d).
+Definition ix_none_or (o : option nat) : option nat := o.
 
 (* a biquadratic-by-linear vector function on [0,1]^2 with an interior knot *)
 Definition ex_kv2 : KV := ([0; 0; 0; qq 1 2; 1; 1; 1], 2%nat).
@@ -118,4 +119,19 @@ Definition arc7 : bsp :=
 Example ex_arc7_on_circle :
   forallb (fun t => qeqb (n_val arc7 [t] 0 * n_val arc7 [t] 0 + n_val arc7 [t] 1 * n_val arc7 [t] 1) (qq 4 1))
           [0; qq 1 5; qq 1 3; qq 1 2; qq 7 10; qq 9 10; 1] = true.
+Proof. vm_compute. reflexivity. Qed.
+
+(* Python index semantics of __getitem__ on an axis of length 3 / 4 *)
+Example ex_py_index :
+  py_wrap 3 (-1) = Some 2%nat /\ py_wrap 3 (-3) = Some 0%nat /\ py_wrap 3 3 = None /\ py_wrap 3 (-4) = None
+  /\ py_slice 3 (Some 1%Z) None 1 = [1; 2]%nat /\ py_slice 3 None None (-1) = [2; 1; 0]%nat
+  /\ py_slice 4 (Some (-3)%Z) (Some (-1)%Z) 1 = [1; 2]%nat /\ py_slice 4 None (Some 0%Z) (-2) = [3; 1]%nat
+  /\ py_slice 4 (Some 10%Z) (Some (-10)%Z) (-3) = [3; 0]%nat /\ py_slice 3 (Some 2%Z) (Some 1%Z) 1 = []
+  /\ py_list 3 [2; -3; -1]%Z = Some [2; 0; 2]%nat /\ sel_comps 2 3 [2; 0]%nat = [2; 0; 5; 3]%nat.
+Proof. repeat split; reflexivity. Qed.
+(* G[-1] of the NURBS example is its last numerator component, not the weight *)
+Example ex_nurbs_getitem_last :
+  match ix_none_or (py_wrap 2 (-1)) with
+  | Some k => qeqb (n_val (n_select ex_n [k]) [qq 1 3; qq 1 5] 0) (n_val ex_n [qq 1 3; qq 1 5] 1)
+  | None => false end = true.
 Proof. vm_compute. reflexivity. Qed.
